@@ -74,7 +74,8 @@ def make_class(cid, shape, mode, creator_script):
 # H: histories
 # ------------------------------------------------------------------------------------------------
 step = st.one_of(st.tuples(st.just("call"), st.integers(0, 2)), st.tuples(st.just("call"), st.integers(0, 2)),
-                 st.tuples(st.just("close"), st.integers(0, 2)), st.tuples(st.just("open"), st.integers(0, 2))).map(list)
+                 st.tuples(st.just("close"), st.integers(0, 2)), st.tuples(st.just("abort"), st.integers(0, 2)),
+                 st.tuples(st.just("open"), st.integers(0, 2))).map(list)
 
 
 def h_case():
@@ -133,10 +134,19 @@ def run_h(case, servertype, keep):
                 if i not in conns:
                     conns[i] = live.proxy(srv.uri(oid), serializer=case["ser"])
                     conns[i]._pyroBind()
-            elif op == "close":
+            elif op in ("close", "abort"):
                 if i in conns:
                     before = srv.daemon.v_disconnect_count()
                     had_conn = conns[i]._pyroConnection is not None
+                    if op == "abort" and had_conn:
+                        # the connection ends with a TCP reset instead of an orderly shutdown
+                        import socket as _s
+                        import struct as _st
+                        try:
+                            conns[i]._pyroConnection.sock.setsockopt(_s.SOL_SOCKET, _s.SO_LINGER, _st.pack("ii", 1, 0))
+                            conns[i]._pyroConnection.sock.close()
+                        except OSError:
+                            pass
                     conns[i]._pyroRelease()
                     del conns[i]
                     if had_conn:
